@@ -7,7 +7,7 @@ import common
 import proofs
 import gen_core as G
 import minerals_trace as MT
-from props import c01, c03
+from props import c01, c03, c06
 
 FILES = ["gen/Gen_core.v", "Model_core.v", "Model_minerals.v", "Proofs_core.v", "Proofs_total.v", "Proofs_minerals.v", "Proofs_flow.v", "Proofs_path.v",
          "Proofs_rhs.v", "Inst_core.v", "Entry_core.v", "Extract_core.v"]
@@ -67,6 +67,129 @@ def null_history_fails(h, kf=None):
     return fails
 
 
+def start_F(sc):
+    """the starting deformation gradient of a history (identity unless the scenario carries one)"""
+    return np.array(sc["F0"], dtype=float).reshape(3, 3) if sc.get("F0") is not None else np.eye(3)
+
+
+def null_F_fails(h, cov=None):
+    """C07: '... while the deformation gradient still follows C06': the F returned by every update of a null-forcing history
+    against an independent DOP853 integration of dF/dt = L(t, x(t)).F (C06's oracle and bound)"""
+    fails = []
+    worst = c06.check_history(h, start_F(h["sc"]), fails)
+    if cov is not None:
+        cov["null_regime_F_error_over_bound_max"] = max(cov.get("null_regime_F_error_over_bound_max", 0.0), worst)
+    return [(k, "null regime / null forcing: " + m) for k, m in fails]
+
+
+UNSTEADY_FLOWS = MT.COINCIDENT_FLOWS + ["time", "position", "stopping", "shear_then_spin"]
+
+
+def null_unsteady_scenarios(rng, tier):
+    """viscosity-bound regimes under velocity gradients that VARY inside an update (in time, along the pathline; incl. the
+    families whose samples at start / midpoint / end coincide), non-identity starting F with det > 0, 1..3 updates; the regime
+    set on the object or (every third history) supplied through get_regime to a mineral built in a dislocation regime"""
+    out = []
+    for r in range(1 if tier == "quick" else 5):
+        for i, lk in enumerate(UNSTEADY_FLOWS):
+            regime = int((0, 7)[(i + r) % 2])
+            sc = MT.scenario(rng, regime=regime, n=int(rng.integers(2, 10)), lkind=lk, nupd=int(rng.integers(1, 4)),
+                             strain=float(rng.uniform(0.4, 0.9)))
+            if lk in MT.COINCIDENT_FLOWS:
+                sc["period"] = float(MT.NICE_PERIODS[int(rng.integers(len(MT.NICE_PERIODS)))])
+            if (i + r) % 3 == 2:
+                sc["regime"] = int((4, 6)[int(rng.integers(2))])
+                sc["regime_switch"] = [regime, regime, 0.0]
+            sc["F0"] = [float(v) for v in c06.random_F0(rng).reshape(-1)]
+            out.append(sc)
+    return out
+
+
+CARRIED_PROBES = ("rest_after_flow", "null_regime_after_dislocation", "regime_stops_inside", "regime_starts_inside")
+
+
+def carried_scenarios(rng, tier):
+    """Null forcing that begins AFTER (or ends BEFORE) a texture-forming part of the history -- what the state carried from
+    call to call, or a regime resolved once per call, would get wrong:
+      rest_after_flow               the flow stops inside update 0 and stays exactly zero: updates 1, 2 must not move the texture
+      null_regime_after_dislocation get_regime returns a dislocation regime during update 0 and a viscosity-bound one from the
+                                    start of update 1 on, the flow continues: updates 1, 2 must not move the texture
+      regime_stops_inside           get_regime switches to a viscosity-bound regime strictly INSIDE the only update: the stored
+                                    texture must be the one of an update that ends at the switch time
+      regime_starts_inside          ... from a viscosity-bound to a dislocation regime: the stored texture must be the one of an
+                                    update that starts at the switch time
+    No sliding (chi = 0), so 'unchanged' is exact and the open finding C07:null-forcing:gbs-refloor is not what is probed."""
+    out = []
+    for r in range(1 if tier == "quick" else 5):
+        for i, probe in enumerate(CARRIED_PROBES):
+            disl, null = int((4, 6)[(i + r) % 2]), int((0, 7)[(i // 2 + r) % 2])
+            if probe == "rest_after_flow":
+                sc = MT.scenario(rng, regime=disl, n=int(rng.integers(3, 10)), nupd=3, lkind="stopping", strain=0.9,
+                                 tkind=("random", "clustered")[int(rng.integers(2))])
+                sc["null_from_update"] = 1
+            elif probe == "null_regime_after_dislocation":
+                sc = MT.scenario(rng, regime=disl, n=int(rng.integers(3, 10)), nupd=3, strain=float(rng.uniform(0.6, 0.9)),
+                                 lkind=("simple", "general", "time", "position")[int(rng.integers(4))],
+                                 tkind=("random", "clustered")[int(rng.integers(2))])
+                sc["regime_switch"], sc["regime_switch_update"], sc["null_from_update"] = [disl, null, 0.0], 1, 1
+            else:
+                sc = MT.scenario(rng, regime=disl, n=int(rng.integers(3, 10)), nupd=1, strain=float(rng.uniform(0.4, 0.6)),
+                                 lkind=("simple", "general", "pure")[int(rng.integers(3))],
+                                 tkind=("random", "clustered")[int(rng.integers(2))])
+                sc["regime_switch"] = [disl, null, 0.0] if probe == "regime_stops_inside" else [null, disl, 0.0]
+                sc["regime_switch_update"] = float(rng.uniform(0.3, 0.6))
+                if rng.random() < 0.5:
+                    sc["regime"] = null if probe == "regime_starts_inside" else disl   # stored regime = the one get_regime starts with ...
+                else:
+                    sc["regime"] = int((4, 6, 0, 7)[int(rng.integers(4))])              # ... or any other
+            sc["params"]["gbs_threshold"] = 0.0
+            sc["params"]["gbm_mobility"] = float(rng.uniform(50, 200))
+            sc["c07_probe"] = probe
+            sc["F0"] = [float(v) for v in c06.random_F0(rng).reshape(-1)]
+            out.append(sc)
+    return out
+
+
+def carried_state_fails(rec, sc, chk=None, bad=None):
+    """run one scenario of carried_scenarios and read C07 on it; returns (history, [(update, message)])"""
+    h = c01.run_history(rec, sc, F0=start_F(sc))
+    if chk is not None:
+        c01.validate_traces(chk, h, bad)
+    fails = list(h["fails"])
+    if fails:
+        return h, fails
+    m, probe = h["mineral"], sc["c07_probe"]
+    O = [np.asarray(o) for o in m.orientations]
+    f = [np.asarray(x) for x in m.fractions]
+    if probe in ("rest_after_flow", "null_regime_after_dislocation"):
+        for k in range(int(sc["null_from_update"]), sc["nupd"]):
+            dO, df = float(np.abs(O[k + 1] - O[k]).max()), float(np.abs(f[k + 1] - f[k]).max())
+            if dO > 0 or df > 1e-15:
+                back = float(np.abs(O[k + 1] - O[0]).max())
+                fails.append((k, f"texture changed under null forcing that follows a texture-forming part of the history: orientations moved by "
+                                 f"{dO:.3e}, fractions by {df:.3e} (distance of the new snapshot from the INITIAL texture: {back:.3e})"))
+        if probe == "null_regime_after_dislocation":
+            fails += null_F_fails(h, chk.cov if chk is not None else None)
+        elif not np.array_equal(h["F_hist"][-1], h["F_hist"][1]):
+            fails.append((sc["nupd"] - 1, "deformation gradient changed after the velocity gradient dropped to zero"))
+    else:
+        ts, dt = float(sc["regime_switch"][2]), h["dt"]
+        span = (0.0, ts) if probe == "regime_stops_inside" else (ts, dt)
+        mr, pr, gL, gx, _ = MT.build(sc)
+        rconst = int(sc["regime_switch"][0] if probe == "regime_stops_inside" else sc["regime_switch"][1])    # the dislocation regime
+        mr.update_orientations(pr, start_F(sc), gL, (span[0], span[1], gx), get_regime=(lambda tt, xx: rconst))
+        dO, df = float(np.abs(np.asarray(mr.orientations[-1]) - O[-1]).max()), float(np.abs(np.asarray(mr.fractions[-1]) - f[-1]).max())
+        if chk is not None:
+            chk.cov["regime_switch_inside_update_max_drift"] = max(chk.cov.get("regime_switch_inside_update_max_drift", 0.0), dO, df)
+        if dO > 1e-2 or df > 1e-2 / sc["n"] * 5:
+            what = ("kept evolving after get_regime switched to a viscosity-bound regime" if probe == "regime_stops_inside"
+                    else "evolved before get_regime switched from a viscosity-bound to a dislocation regime (or not after)")
+            fails.append((0, f"texture {what} strictly inside an update (switch at t = {ts:.4g} of [0, {dt:.4g}]): differs from the update over "
+                             f"[{span[0]:.4g}, {span[1]:.4g}] alone by orientations {dO:.3e}, fractions {df:.3e}"))
+        fails += null_F_fails(h, chk.cov if chk is not None else None)
+    return h, fails
+
+
 def run(chk):
     ok, br = proofs.prove(chk, FILES, PROP, groups=("core",), gen_modules=MT.GLUE_TIE_GEN)
     import pydrex
@@ -76,7 +199,11 @@ def run(chk):
         "NOT proved: that LSODA returns a state block unchanged when its derivative is identically zero (true of linear multistep methods; observed bit-exactly on every run)",
     ]
     chk.cov["rule"] = ("dispatch: all regime ordinals -2..10 x phase 0..2 x fabric 0..6 (273 calls of derivatives, exception type vs model, exhaustive over that box); "
-                       "histories: zero velocity gradient in every accepted regime, the two viscosity-bound regimes under every flow family, M* = 0 under flows, "
+                       "histories: zero velocity gradient in every accepted regime, the two viscosity-bound regimes under every flow family AND under flows that vary inside an "
+                       "update (time / position dependent, stopping, shear then spin, and the families whose samples at start / midpoint / end of every update coincide), "
+                       "regime set on the object or supplied by get_regime, with the returned F compared against an independent DOP853 integration; null forcing that begins after / ends "
+                       "before a texture-forming part of the history (flow then rest over several updates, get_regime switching to / from a viscosity-bound regime at an update "
+                       "boundary and strictly inside an update, compared with the update cut at the switch time); M* = 0 under flows, "
                        "failed updates (unsupported regimes, invalid phase/fabric) with before/after comparison of the stored lists; "
                        "non-trivial = a call that must be rejected or a history under a non-zero flow")
     bad, mon, kf = [], [], []
@@ -117,6 +244,16 @@ def run(chk):
                     if not np.array_equal(h["F_hist"][-1], np.eye(3)):
                         fails.append((0, "deformation gradient changed under a zero velocity gradient"))
                     mon += [(sc, k, m) for k, m in fails]
+            # block-boundary grain counts: viscosity-bound regimes (texture must not move) and one dislocation regime
+            for sc in MT.block_scenarios(np.random.default_rng([chk.seed, 0xB10C]), chk.tier, regimes=(0, 7, 4),
+                                         sizes=(64, 128, 129, 256, 1024, 127) if chk.tier == "quick" else None, nupd=2):
+                sc["params"]["gbs_threshold"] = 0.0        # no sliding floor: the open finding is not what is probed here
+                h = c01.run_history(rec, sc)
+                c01.validate_traces(chk, h, bad)
+                if sc["regime"] in (0, 7):
+                    mon += [(sc, k, m) for k, m in null_history_fails(h, kf)]
+                else:
+                    mon += [(sc, k, m) for k, m in h["fails"]]
             # witness of the open finding (deterministic): dominant grain, chi = 0.5, zero L
             scw = MT.scenario(np.random.default_rng(777), regime=4, pair=(0, 0), n=6, tkind="nonuniform", nupd=1)
             scw["params"]["gbs_threshold"] = 0.5
@@ -149,14 +286,30 @@ def run(chk):
                 scg["params"]["gbs_threshold"] = 0.0
                 hg = c01.run_history(rec, scg)
                 c01.validate_traces(chk, hg, bad)
-                mon += [(scg, k, m) for k, m in null_history_fails(hg, kf)]
+                mon += [(scg, k, m) for k, m in null_history_fails(hg, kf) + null_F_fails(hg, chk.cov)]
             # viscosity-bound regimes under every flow
             for regime in (0, 7):
                 for lk in MT.L_FAMILIES:
                     sc = MT.scenario(rng, regime=regime, n=int(rng.integers(2, 10)), lkind=lk, nupd=2)
                     h = c01.run_history(rec, sc)
                     c01.validate_traces(chk, h, bad)
-                    mon += [(sc, k, m) for k, m in null_history_fails(h, kf)]
+                    mon += [(sc, k, m) for k, m in null_history_fails(h, kf) + null_F_fails(h, chk.cov)]
+            # viscosity-bound regimes under velocity gradients that vary INSIDE an update: the texture must not move and the
+            # returned F must still be the solution of dF/dt = L(t, x(t)).F (own PRNG stream)
+            nf = chk.cov.setdefault("null_regime_unsteady_flow_histories", {})
+            for sc in null_unsteady_scenarios(np.random.default_rng([chk.seed, 0xC07D]), chk.tier):
+                h = c01.run_history(rec, sc, F0=start_F(sc))
+                c01.validate_traces(chk, h, bad)
+                mon += [(sc, k, m) for k, m in null_history_fails(h, kf) + null_F_fails(h, chk.cov)]
+                key = sc["lkind"] + ("/get_regime" if sc.get("regime_switch") else "")
+                nf[key] = nf.get(key, 0) + 1
+            # null forcing that begins after (ends before) a texture-forming part of the history: state carried between calls,
+            # regime switches at an update boundary and strictly inside an update (own PRNG stream)
+            ch = chk.cov.setdefault("carried_state_probes", {})
+            for sc in carried_scenarios(np.random.default_rng([chk.seed, 0xC07E]), chk.tier):
+                _, fails = carried_state_fails(rec, sc, chk, bad)
+                mon += [(sc, k, m) for k, m in fails]
+                ch[sc["c07_probe"]] = ch.get(sc["c07_probe"], 0) + 1
             # zero mobility: volume fractions unchanged (no sliding)
             for lk in MT.L_FAMILIES[:4] if chk.tier == "quick" else MT.L_FAMILIES:
                 sc = MT.scenario(rng, regime=4, n=int(rng.integers(2, 10)), lkind=lk, nupd=2)
@@ -182,6 +335,12 @@ def run(chk):
                     mon.append((sc, 0, f"update with regime {regime}, phase/fabric {pair} did not raise"))
                 if before != after or len(m.fractions) != before[0]:
                     mon.append((sc, 0, "a failed update altered the stored history"))
+            # ... also when it is the integrator that fails, at its first or at a later step (MT.failing_solver_probe)
+            for fail_step, regime in ((1, 4), (2, 6), (3, 4), (2, 0)):
+                scf = MT.scenario(np.random.default_rng([chk.seed, 0xFA11, fail_step]), regime=regime, n=5, nupd=1, lkind="general")
+                scf["fail_step"] = fail_step
+                chk.note_case(("failing-solver", fail_step, regime), nontrivial=True)
+                mon += [(scf, 0, msg) for msg in MT.failing_solver_probe(scf, fail_step)]
         chk.cov["traces_validated_against_impl"] = chk.cov["evaluations"]
     chk.cov["disagreements"] = len(bad)
     chk.cov["monitor_failures"] = len(mon)
@@ -209,12 +368,26 @@ def replay(d):
         print("replay file names a broken obligation; re-run the check itself")
         return 1
     sc = d.get("scenario", {})
+    if "pair" in sc and sc.get("fail_step"):
+        sc["pair"] = tuple(sc["pair"])
+        fails = MT.failing_solver_probe(sc, int(sc["fail_step"]))
+        for m in fails:
+            print("still fails:", m)
+        return 1 if fails else 0
+    if "pair" in sc and sc.get("c07_probe"):
+        sc["pair"] = tuple(sc["pair"])
+        with MT.Recorder() as rec:
+            _, fails = carried_state_fails(rec, sc)
+        for k, m in fails:
+            print("still fails:", k, m)
+        return 1 if fails else 0
     if "pair" in sc:
         sc["pair"] = tuple(sc["pair"])
         with MT.Recorder() as rec:
-            h = c01.run_history(rec, sc)
-        null = sc.get("rate") == 0.0 or sc.get("regime") in (0, 7)
-        fails = null_history_fails(h, []) if null else list(h["fails"])
+            h = c01.run_history(rec, sc, F0=start_F(sc))
+        sw = sc.get("regime_switch")
+        null = sc.get("rate") == 0.0 or (sc.get("regime") in (0, 7) and not sw) or bool(sw and sw[0] in (0, 7) and sw[1] in (0, 7))
+        fails = (null_history_fails(h, []) + null_F_fails(h)) if null else list(h["fails"])
         for k, m in fails:
             print("still fails:", k, m)
         return 1 if fails else 0
